@@ -1,7 +1,7 @@
 (* C10 - no request or response can make validation of a valid document panic (partial: the
    modelled stages; parsers, gorilla/mux and the runtime are exercised, not modelled). *)
 From KV Require Import Model.Base Model.Json Model.Schema Model.Request Model.ParamCodec Model.Lookup Model.Response Model.Body Model.Router
-     Proofs.SchemaProofs Proofs.SchemaMain Proofs.C10Proofs.
+     Proofs.SchemaProofs Proofs.SchemaMain Proofs.C10Proofs Proofs.C10Compose.
 Local Open Scope list_scope.
 
 (* schema validation never panics: every tree schema (bounds flags without bounds, zero multipleOf,
@@ -37,6 +37,17 @@ Theorem C10_response_stage_never_panics :
     Proofs.C10Proofs.is_rpanic (fst (validate_response rc rm fo o is_head status responses ct body)) = false.
 Proof. exact validate_response_no_panic. Qed.
 Print Assumptions C10_response_stage_never_panics.
+
+(* the request stages composed: every operation (any number of parameters in effect, any request-body
+   declaration) against every request (any fragment, content type, body bytes, parse result), in
+   both error modes - the composition never yields a panic, provided array-typed parameter schemas
+   declare their items (the document-validation rule above) *)
+Theorem C10_request_stages_never_panic :
+  forall pi64 pi32 pf rc rm fo multi o op r,
+    Forall (fun p => items_declared (pd_schema p) = true) (op_params op) ->
+    validate_request_stages pi64 pi32 pf rc rm fo multi o op r <> TPanicked.
+Proof. exact request_stages_never_panic. Qed.
+Print Assumptions C10_request_stages_never_panic.
 
 (* the gate matters: without the document-validation rule the decoder does panic *)
 Theorem C10_refuted_without_gate :
